@@ -3,55 +3,97 @@ import time
 import z3
 from engine import Unsupported
 from scen_sys import Sys
-from prog_mailbox import (MailboxProgram, oracle_fifo, oracle_own_result, oracle_resolves, oracle_stop_barrier,
+from prog_timers import oracle_timers, oracle_restart_timers
+from prog_mailbox import (oracle_containment, oracle_owning, MailboxProgram, oracle_fifo, oracle_own_result, oracle_resolves, oracle_stop_barrier,
                           oracle_backpressure, oracle_handles, oracle_liveness_flags)
 
 
 def mailbox_programs(tier):
-    """(name, cap, scripts, handler_pending, tags) - tags say which oracles apply"""
+    """program specs; `tags`: 'q' quick+thorough, 't' thorough only"""
     P = []
     A = 'addr'
+
+    def add(name, cap, scripts, hp=0, tag='q', **kw):
+        d = dict(name=name, cap=cap, scripts=scripts, hp=hp, tag=tag, pre=(), started_actions=(), strategy='RestartOnly',
+                 faults=0, max_clock=None, K=None, max_steps=60, started=None, owning=False)
+        d.update(kw)
+        P.append(d)
     # FIFO across paths and clients, own result, stop barrier
-    P.append(('fifo_mixed_unbounded', None, {'c1': [('send', A, 'a1'), ('call', A, 'a2')], 'c2': [('call', A, 'b1')]}, 1, 'q'))
-    P.append(('fifo_mixed_bounded1', 1, {'c1': [('send', A, 'a1'), ('call', A, 'a2')], 'c2': [('send', A, 'b1')]}, 1, 'q'))
-    P.append(('fifo_bounded2_send_then_call', 2, {'c1': [('send', A, 'a1'), ('call', A, 'a2')]}, 1, 'q'))
-    P.append(('kinds', None, {'c1': [('mk_sender', A, 's'), ('mk_caller', A, 'c'), ('sender_send', 's', 'a1'), ('caller_call', 'c', 'a2'), ('ping', A), ('call', A, 'a3')]}, 0, 'q'))
-    P.append(('stop_race', None, {'c1': [('call', A, 'a1'), ('stop', A), ('call', A, 'a2')], 'c2': [('send', A, 'b1')]}, 0, 'q'))
-    P.append(('stop_race_bounded', 1, {'c1': [('send', A, 'a1'), ('stop', A), ('send', A, 'a2')], 'c2': [('call', A, 'b1')]}, 0, 'q'))
-    P.append(('halt_and_await', None, {'c1': [('clone', A, 'a2'), ('send', A, 'a1'), ('halt', 'a2')], 'c2': [('await', A)]}, 0, 'q'))
-    P.append(('backpressure_sym', 'sym', {'c1': [('send', A, 'a1')], 'c2': [('send', A, 'b1')]}, 1, 'q'))
-    P.append(('backpressure_sym3', 'sym', {'c1': [('send', A, 'a1'), ('send', A, 'a2')], 'c2': [('send', A, 'b1')]}, 1, 't'))
-    P.append(('backpressure_weak', 1, {'c1': [('mk_weak_sender', A, 'ws'), ('weak_send', 'ws', 'a1'), ('weak_send', 'ws', 'a2')], 'c2': [('call', A, 'b1')]}, 1, 't'))
-    P.append(('fifo_three_clients', 1, {'c1': [('send', A, 'a1')], 'c2': [('call', A, 'b1')], 'c3': [('send', A, 'd1')]}, 1, 't'))
+    add('fifo_mixed_unbounded', None, {'c1': [('send', A, 'a1'), ('call', A, 'a2')], 'c2': [('call', A, 'b1')]}, 1)
+    add('fifo_mixed_bounded1', 1, {'c1': [('send', A, 'a1'), ('call', A, 'a2')], 'c2': [('send', A, 'b1')]}, 1)
+    add('fifo_bounded2_send_then_call', 2, {'c1': [('send', A, 'a1'), ('call', A, 'a2')]}, 1)
+    add('kinds', None, {'c1': [('mk_sender', A, 's'), ('mk_caller', A, 'c'), ('sender_send', 's', 'a1'), ('caller_call', 'c', 'a2'), ('ping', A), ('call', A, 'a3')]})
+    add('stop_race', None, {'c1': [('call', A, 'a1'), ('stop', A), ('call', A, 'a2')], 'c2': [('send', A, 'b1')]})
+    add('stop_race_bounded', 1, {'c1': [('send', A, 'a1'), ('stop', A), ('send', A, 'a2')], 'c2': [('call', A, 'b1')]})
+    add('halt_and_await', None, {'c1': [('clone', A, 'a2'), ('send', A, 'a1'), ('halt', 'a2')], 'c2': [('await', A)]})
+    add('backpressure_sym', 'sym', {'c1': [('send', A, 'a1')], 'c2': [('send', A, 'b1')]}, 1)
+    add('backpressure_sym3', 'sym', {'c1': [('send', A, 'a1'), ('send', A, 'a2')], 'c2': [('send', A, 'b1')]}, 1, 't')
+    add('backpressure_weak', 1, {'c1': [('mk_weak_sender', A, 'ws'), ('weak_send', 'ws', 'a1'), ('weak_send', 'ws', 'a2')], 'c2': [('call', A, 'b1')]}, 1, 't')
+    add('fifo_three_clients', 1, {'c1': [('send', A, 'a1')], 'c2': [('call', A, 'b1')], 'c3': [('send', A, 'd1')]}, 1, 't')
     # handle programs (C05 / C15 / C14)
-    P.append(('handles_caller_only', None, {'c1': [('downgrade', A, 'w'), ('mk_weak_sender', A, 'ws'), ('mk_weak_caller', A, 'wc'), ('mk_caller', A, 'c'), ('drop', A), ('upgrade', 'w'), ('upgrade_sender', 'ws'), ('upgrade_caller', 'wc'), ('caller_call', 'c', 'ctxstop:1')]}, 0, 'q'))
-    P.append(('handles_sender_only', None, {'c1': [('downgrade', A, 'w'), ('mk_weak_caller', A, 'wc'), ('mk_sender', A, 's'), ('drop', A), ('upgrade', 'w'), ('upgrade_caller', 'wc'), ('sender_send', 's', 'ctxstop:1')]}, 0, 'q'))
-    P.append(('handles_last_drop_drains', 1, {'c1': [('send', A, 'a1'), ('send', A, 'a2'), ('downgrade', A, 'w'), ('drop', A), ('upgrade', 'w')]}, 1, 'q'))
-    P.append(('handles_upgrade_revives', None, {'c1': [('downgrade', A, 'w'), ('clone', A, 'a2'), ('drop', A), ('upgrade', 'w', 'a3'), ('drop', 'a2'), ('call', 'a3', 'a1'), ('drop', 'a3'), ('upgrade', 'w')]}, 0, 'q'))
-    P.append(('handles_two_tasks', None, {'c1': [('mk_sender', A, 's'), ('drop', A), ('sender_send', 's', 'a1'), ('drop', 's')], 'c2': [('upgrade', 'w'), ('upgrade', 'w')]}, 0, 't', (('downgrade', A, 'w'),)))
-    P.append(('flags_unawaited', None, {'c1': [('running', A), ('stop', A), ('ping', A), ('stopped', A), ('running', A)]}, 0, 'q'))
-    P.append(('flags_awaited', None, {'c1': [('clone', A, 'a2'), ('stop', A), ('await', 'a2'), ('stopped', A), ('downgrade', A, 'w'), ('weak_stopped', 'w')]}, 0, 'q'))
-    return [p for p in P if tier == 'thorough' or p[4] == 'q']
+    add('handles_caller_only', None, {'c1': [('downgrade', A, 'w'), ('mk_weak_sender', A, 'ws'), ('mk_weak_caller', A, 'wc'), ('mk_caller', A, 'c'), ('drop', A), ('upgrade', 'w'), ('upgrade_sender', 'ws'), ('upgrade_caller', 'wc'), ('caller_call', 'c', 'ctxstop:1')]})
+    add('handles_sender_only', None, {'c1': [('downgrade', A, 'w'), ('mk_weak_sender', A, 'ws'), ('mk_weak_caller', A, 'wc'), ('mk_sender', A, 's'), ('drop', A), ('upgrade', 'w'), ('upgrade_sender', 'ws'), ('upgrade_caller', 'wc'), ('sender_send', 's', 'ctxstop:1')]})
+    add('handles_sender_restart', None, {'c1': [('mk_sender', A, 's'), ('drop', A), ('sender_send', 's', 'ctxrestart:1'), ('sender_send', 's', 'a1')]})
+    add('handles_last_drop_drains', 1, {'c1': [('send', A, 'a1'), ('send', A, 'a2'), ('downgrade', A, 'w'), ('drop', A), ('upgrade', 'w')]}, 1)
+    add('handles_upgrade_revives', None, {'c1': [('downgrade', A, 'w'), ('clone', A, 'a2'), ('drop', A), ('upgrade', 'w', 'a3'), ('drop', 'a2'), ('call', 'a3', 'a1'), ('drop', 'a3'), ('upgrade', 'w')]})
+    add('handles_two_tasks', None, {'c1': [('mk_sender', A, 's'), ('drop', A), ('sender_send', 's', 'a1'), ('drop', 's')], 'c2': [('upgrade', 'w'), ('upgrade', 'w')]}, 0, 't', pre=(('downgrade', A, 'w'),))
+    add('flags_unawaited', None, {'c1': [('running', A), ('stop', A), ('ping', A), ('stopped', A), ('running', A)]})
+    add('flags_awaited', None, {'c1': [('clone', A, 'a2'), ('stop', A), ('await', 'a2'), ('stopped', A), ('downgrade', A, 'w'), ('weak_stopped', 'w')]})
+    add('flags_failed_start', None, {'c1': [('clone', A, 'a2'), ('await', 'a2'), ('stopped', A), ('running', A), ('downgrade', A, 'w'), ('weak_stopped', 'w'), ('call', A, 'a1')]}, started={1: 'err'})
+    add('flags_killed', None, {'c1': [('ping', A), ('clone', A, 'a2'), ('await', 'a2'), ('stopped', A), ('running', A)]}, faults=1, K=2)
+    # failure containment (C06 / C02): the actor task is cancelled at any step / a handler panics
+    add('kill_with_pending_call', None, {'c1': [('call', A, 'a1'), ('call', A, 'a2')], 'c2': [('await', A)]}, 1, faults=1, K=2)
+    add('panic_in_handler', None, {'c1': [('send', A, 'a1'), ('call', A, 'panic:1'), ('call', A, 'a3')], 'c2': [('await', A)]}, 0, K=2)
+    add('panic_bounded_pending_send', 0, {'c1': [('call', A, 'panic:1')], 'c2': [('send', A, 'b1'), ('send', A, 'b2')]}, 0, K=3)
+    # timers (C10 / C05 / C07 / C06)
+    add('timers_stop', None, {'c1': [('stop', A)]}, started_actions=(('interval', 'tick', 2),), max_clock=5, K=2, max_steps=24)
+    add('timers_mixed_drop', None, {'c1': [('drop', A)]}, started_actions=(('interval', 'tick', 2), ('delayed_send', 'ds', 3)), max_clock=6, K=2, max_steps=24)
+    add('timers_interval_with_bounded', 1, {'c1': [('send', A, 'a1'), ('stop', A)]}, 1, started_actions=(('interval_with', 'tw', 1),), max_clock=2, K=1, max_steps=20)
+    add('timers_delayed_exec_kill', None, {'c1': [('ping', A)]}, started_actions=(('delayed_exec', 'de', 2), ('interval', 'tick', 1)), max_clock=3, K=1, faults=1, max_steps=20)
+    add('timers_restart', None, {'c1': [('restart', A), ('ping', A)]}, started_actions=(('interval', 'tick', 2),), max_clock=4, K=2, max_steps=20)
+    add('timers_restart_recreate', None, {'c1': [('restart', A), ('ping', A), ('stop', A)]}, started_actions=(('interval', 'tick', 2),), max_clock=4, K=2, max_steps=22, strategy='RecreateFromDefault', tag='t')
+    add('timers_fail_restart', None, {'c1': [('restart', A), ('ping', A)]}, started_actions=(('delayed_exec', 'de', 3), ('interval', 'tick', 2)), started={2: 'err'}, max_clock=6, K=1, max_steps=22)
+    # OwningAddr (C17; join futures also serve C02 'everything resolves')
+    O = 'o'
+    add('own_join_twice', None, {'c1': [('o_call', O, 'a1'), ('to_addr', O, 'a'), ('stop', 'a'), ('join', O), ('join', O)]}, owning=True)
+    add('own_two_join_futures', None, {'c1': [('await_fut', 'j1')], 'c2': [('to_addr', O, 'a'), ('stop', 'a'), ('join', O)]}, owning=True, pre=(('mk_join', O, 'j1'),))
+    add('own_join_after_last_drop', None, {'c1': [('o_send', O, 'a1'), ('mk_join', O, 'j1'), ('drop', O), ('await_fut', 'j1')]}, owning=True)
+    add('own_join_after_panic', None, {'c1': [('o_call', O, 'panic:1'), ('join', O)]}, owning=True)
+    add('own_join_failed_start', None, {'c1': [('join', O)]}, owning=True, started={1: 'err'})
+    add('own_consume', 1 if False else None, {'c1': [('o_send', O, 'a1'), ('consume', O)]}, owning=True)
+    add('own_detach', None, {'c1': [('detach', O, 'a'), ('call', 'a', 'a1'), ('downgrade', 'a', 'w'), ('drop', 'a'), ('upgrade', 'w')]}, owning=True)
+    add('own_join_killed', None, {'c1': [('o_call', O, 'a1'), ('join', O)]}, owning=True, faults=1, K=2)
+    return [p for p in P if tier == 'thorough' or p['tag'] == 'q']
 
 
-def evaluate(tr, status, cap, scripts, sym_n=None):
+def evaluate(tr, status, cap, scripts, spec=None):
     """all oracles on one trace -> {pid: [messages]} (cap: None | int)"""
-    out = {k: [] for k in ('C01', 'C02', 'C04', 'C05', 'C12', 'C14', 'C15')}
+    out = {k: [] for k in PIDS}
     out['C01'] += oracle_fifo(tr, scripts)
     out['C02'] += oracle_own_result(tr, scripts)
     out['C02'] += oracle_resolves(tr, status, scripts)
     out['C04'] += oracle_stop_barrier(tr, scripts)
     if cap != 'sym':
         out['C12'] += oracle_backpressure(tr, cap, scripts)
-    c05, c15 = oracle_handles(tr, status, scripts)
+    c05, c15 = oracle_handles(tr, status, scripts, initial='o' if (spec or {}).get('owning') else 'addr')
     out['C05'] += c05
     out['C15'] += c15
     out['C14'] += oracle_liveness_flags(tr, scripts)
+    if spec is not None:
+        if spec['started_actions']:
+            out['C10'] += oracle_timers(tr, status, spec['started_actions'])
+            out['C07'] += oracle_restart_timers(tr)
+        out['C06'] += oracle_containment(tr, status, scripts)
+        if spec.get('owning'):
+            out['C17'] += oracle_owning(tr, status, scripts)
     return out
 
 
+PIDS = ('C01', 'C02', 'C04', 'C05', 'C06', 'C07', 'C10', 'C12', 'C14', 'C15', 'C17')
+
+
 def run(functions, enums, repo, tier, max_steps=60, seed=0, validate=None):
-    results = {k: [] for k in ('C01', 'C02', 'C04', 'C05', 'C12', 'C14', 'C15')}
+    results = {k: [] for k in PIDS}
     stats = {'paths': 0, 'solver_calls': 0, 'solver_s': 0.0, 'steps': 0, 'bound': 0, 'truncated': 0, 'programs': [],
              'functions': set(), 'modelled': {}, 'opaque': {}, 'samples': [], 'distinct_traces': 0}
     distinct = set()
@@ -64,11 +106,21 @@ def run(functions, enums, repo, tier, max_steps=60, seed=0, validate=None):
     stats['traces_validated_against_impl'] = 0
     stats['native_mismatches'] = []
     stats['native_confirmations'] = {}
-    for prog in mailbox_programs(tier):
-        (name, cap, scripts, hp, _tag) = prog[:5]
-        pre = prog[5] if len(prog) > 5 else ()
+    for spec in mailbox_programs(tier):
+        name, cap, scripts, hp, pre = spec['name'], spec['cap'], spec['scripts'], spec['hp'], spec['pre']
         sy = Sys(functions, enums, repo)
-        p = MailboxProgram(sy, cap, scripts, handler_pending=hp, max_steps=max_steps, pre=pre)
+        sy.strategy = spec['strategy']
+        sy.user_script['started_actions'] = spec['started_actions']
+        for k, v in (spec['started'] or {}).items():
+            sy.user_script[('started', k)] = v
+        p = MailboxProgram(sy, cap, scripts, handler_pending=hp, max_steps=spec['max_steps'], pre=pre)
+        p.faults = spec['faults']
+        p.owning = spec['owning']
+        if spec['max_clock'] is not None:
+            p.max_clock = spec['max_clock']
+        p.max_preemptions = spec['K']
+        native_ok = not spec['owning'] and not spec['started_actions'] and not spec['faults'] and not spec['started'] and \
+            not any(str(op[2]).startswith('panic') for sc in scripts.values() for op in sc if len(op) > 2)
         st = p.setup()
         n = 0
         reservoir = []
@@ -77,7 +129,7 @@ def run(functions, enums, repo, tier, max_steps=60, seed=0, validate=None):
             n += 1
             tr = leaf.events[leaf.events.index(('setup_done',)) + 1:]
             # reservoir sample of schedules for native validation
-            if leaf.status == 'quiescent':
+            if leaf.status == 'quiescent' and native_ok:
                 if len(reservoir) < validate:
                     reservoir.append((leaf, tr))
                 else:
@@ -89,6 +141,8 @@ def run(functions, enums, repo, tier, max_steps=60, seed=0, validate=None):
                 continue
             if leaf.status == 'bound':
                 stats['bound'] += 1
+            if leaf.status == 'panicked':
+                results['C06'].append(dict(prog=name, cap=str(cap), msg='a task other than the actor died by a panic: ' + str([e for e in tr if e[0] == 'panic'][-1:]), trace=tr, choices=[]))
             if leaf.status in ('unreachable',):
                 results['C01'].append(dict(prog=name, msg='MIR unreachable reached', trace=tr, choices=leaf.choices))
                 continue
@@ -98,10 +152,9 @@ def run(functions, enums, repo, tier, max_steps=60, seed=0, validate=None):
                     rec = dict(prog=name, cap=str(cap), msg=m, trace=tr, choices=[str(c) for c in leaf.choices], extra=extra)
                     results[pid].append(rec)
                     first_witness.setdefault((pid, m), (leaf, tr, rec))
-            add('C01', oracle_fifo(tr, scripts))
-            add('C02', oracle_own_result(tr, scripts))
-            add('C02', oracle_resolves(tr, leaf.status, scripts))
-            add('C04', oracle_stop_barrier(tr, scripts))
+            ev = evaluate(tr, leaf.status, cap, scripts, spec)
+            for pid, msgs in ev.items():
+                add(pid, msgs)
             if cap == 'sym':
                 # behind(n): ask z3 whether some capacity on this path is exceeded
                 behind = oracle_backpressure(tr, None if cap is None else 10 ** 6, scripts, want_counts=True)
@@ -109,12 +162,6 @@ def run(functions, enums, repo, tier, max_steps=60, seed=0, validate=None):
                     if sy.eng.feasible(leaf, p.n < b):
                         m = sy.eng.model(leaf, p.n < b)
                         add('C12', [f"{b} sends had returned Ok while their messages were still queued in a mailbox bounded to a smaller n"], extra=b)
-            else:
-                add('C12', oracle_backpressure(tr, cap, scripts))
-            c05, c15 = oracle_handles(tr, leaf.status, scripts)
-            add('C05', c05)
-            add('C15', c15)
-            add('C14', oracle_liveness_flags(tr, scripts))
             distinct.add(hash((name, tuple(tr))))
             if len(stats['samples']) < 8 and n % 53 == 1:
                 stats['samples'].append({'program': name, 'capacity': str(cap), 'status': leaf.status, 'trace': [list(map(str, e)) for e in tr][:60]})
@@ -135,6 +182,8 @@ def run(functions, enums, repo, tier, max_steps=60, seed=0, validate=None):
                 stats['native_mismatches'].append(f"{name}: {diff}")
         # ---- native confirmation of every distinct violation (first witness)
         for (pid, m), (leaf, tr, rec) in first_witness.items():
+            if not native_ok:
+                continue      # timers / faults: confirmed by dedicated native scenarios (hv-replay finding ...)
             ncap = cap
             if cap == 'sym':
                 mdl = sy.eng.model(leaf, p.n < rec['extra']) if rec.get('extra') is not None else sy.eng.model(leaf)
@@ -144,7 +193,7 @@ def run(functions, enums, repo, tier, max_steps=60, seed=0, validate=None):
             why = err
             if nat is not None:
                 nst = 'quiescent' if leaf.status == 'quiescent' else leaf.status
-                nres = evaluate(nat, nst, ncap, scripts)
+                nres = evaluate(nat, nst, ncap, scripts, spec)
                 confirmed = m in nres[pid] or (pid == 'C12' and any('sends had returned Ok' in x for x in nres[pid]))
                 if not confirmed:
                     why = f"native run of the same schedule does not show it (native {pid} findings: {nres[pid][:2]})"
@@ -164,7 +213,7 @@ def run(functions, enums, repo, tier, max_steps=60, seed=0, validate=None):
             stats['modelled'][k] = stats['modelled'].get(k, 0) + v
         for k, v in e.stats.opaque.items():
             stats['opaque'][k] = stats['opaque'].get(k, 0) + v
-        stats['programs'].append(dict(name=name, capacity=str(cap), pre=[list(o) for o in pre], scripts={k: [list(o) for o in v] for k, v in scripts.items()}, handler_pending=hp, schedules=n))
+        stats['programs'].append(dict(name=name, capacity=str(cap), pre=[list(o) for o in pre], started_actions=[list(a) for a in spec['started_actions']], faults=spec['faults'], strategy=spec['strategy'], max_preemptions=spec['K'], max_clock=spec['max_clock'], scripts={k: [list(o) for o in v] for k, v in scripts.items()}, handler_pending=hp, schedules=n))
     stats['wall_s'] = time.time() - t0
     stats['distinct_traces'] = len(distinct)
     stats['functions'] = sorted(stats['functions'])
